@@ -3,6 +3,13 @@
 #include <mutex>
 #include <string>
 
+#ifdef CAPPUCCINO_VERIF_HOOKS
+// Verification-only schedule points (see /verif): called immediately before the underlying lock is
+// acquired and immediately after it is released.  Compiled out unless CAPPUCCINO_VERIF_HOOKS is defined.
+extern "C" void cappuccino_verif_before_lock(const void* mutex);
+extern "C" void cappuccino_verif_after_unlock(const void* mutex);
+#endif
+
 namespace cappuccino
 {
 /**
@@ -38,6 +45,9 @@ public:
     {
         if constexpr (thread_safe_type == thread_safe::yes)
         {
+#ifdef CAPPUCCINO_VERIF_HOOKS
+            cappuccino_verif_before_lock(this);
+#endif
             m_lock.lock();
         }
     }
@@ -47,6 +57,9 @@ public:
         if constexpr (thread_safe_type == thread_safe::yes)
         {
             m_lock.unlock();
+#ifdef CAPPUCCINO_VERIF_HOOKS
+            cappuccino_verif_after_unlock(this);
+#endif
         }
     }
 
